@@ -49,6 +49,7 @@ type Profile struct {
 	ForceSegVer int    `json:"force_seg_ver,omitempty"`
 	Unshielded  bool   `json:"unshielded,omitempty"` // C15 known-finding probe: ice v2 stored-field buffer not serialised
 	StatsCalls  bool   `json:"stats_calls,omitempty"` // C15 known-finding probe: index.Writer.Stats() under concurrency
+	Diff        bool   `json:"diff,omitempty"`        // C08: differential comparison with canonical builds
 
 	PostRun func(r *Run, res *Result) `json:"-"`
 }
@@ -273,6 +274,9 @@ type Run struct {
 	conc        bool
 	closeAfter  int // EarlyClose: start closing after this many client operations (0: at quiescence)
 	earlyClosed bool
+	diffQueries []qSpec
+	refAnswers  map[int]*answer
+	observations []Violation // non-fatal observations matched against known findings by the driver
 	opsIssued   int
 	docs       map[string]*DocSpec
 	recovered  map[int]*Content // image index -> recovered content (crash oracle)
@@ -1400,6 +1404,12 @@ func (r *Run) quiescentChecks() {
 		r.probe("ambiguous-final-explanation")
 	}
 	r.finalModel = r.chain.Current()
+	if r.p.Diff {
+		r.diffLive()
+		if r.failed() {
+			return
+		}
+	}
 	// close held readers (re-reading them a last time)
 	for i, h := range r.slots {
 		if h != nil {
@@ -1457,6 +1467,9 @@ func (r *Run) quiescentChecks() {
 	}
 	if r.k.Dir == "fs" {
 		r.reopenCheck()
+		if r.p.Diff && !r.failed() {
+			r.diffDisk()
+		}
 	}
 }
 
